@@ -15,10 +15,10 @@ def main():
     from p11mc import core
     sig = core.replay_file(rec)
     print("recorded signature:", rec["signature"])
-    print("observed signature:", sig)
+    print("observed signatures:", sig)
     for i, a in enumerate(rec["history"] + ([rec["action"]] if rec["action"] is not None else [])):
         print("  step %d: %r" % (i, a))
-    if sig == rec["signature"]:
+    if rec["signature"] in sig:
         print("VIOLATION property=%s replay=%s" % (rec["property"], sys.argv[1]))
         return 1
     return 0
